@@ -22,14 +22,17 @@ def run(c):
     replay_item = None
     if c.replay and "witness" in c.replay and "wit" in c.replay["witness"]:
         replay_item = (c.replay["witness"]["config"], c.replay["witness"]["wit"])
-    n_worlds = 40 - len(corpus) if quick else 400
+    n_worlds = 40 - len(corpus) if quick else 200
     per_fn = 3 if quick else 6
     items, stats = bc.make_items(c.rng, max(n_worlds, 0), bc.BASE_FEATURES, corpus, replay_item)
-    batches, dropped = bc.build_all(c, items, emitter)
+    dropped = {}
+    batches = bc.iter_batches(c, items, emitter, dropped)
+    ncompiled = 0
     counts = {"calls": 0, "with-heap-blocks": 0, "host-blocks": 0, "result-blocks": 0, "post-returns": 0, "classes": {}}
     reqs, impl, model = [], [], []
     creqs, cimpl, cmodel = [], [], []
     for batch, gmap in batches:
+        ncompiled += len(gmap)
         def on_outcome(m, o, batch=batch, gmap=gmap):
             if m is None:
                 for e in o["verify"].split(","):
@@ -62,7 +65,7 @@ def run(c):
         bc.run_calls(c, batch, host, c.rng, per_fn, on_outcome)
     c.compare("post-return-frees", reqs, impl, model, nontrivial=lambda r, o: o != "[]")
     c.compare("ledger-event-counts", creqs, cimpl, cmodel, nontrivial=lambda r, o: '"galloc": 0' not in o)
-    c.cov["worlds"] = {"generated": len(items), "corpus": len(corpus), "compiled": sum(len(g) for _, g in batches),
+    c.cov["worlds"] = {"generated": len(items), "corpus": len(corpus), "compiled": ncompiled,
                        "dropped_not_compiling": len(dropped)}
     c.cov["type_constructors_generated"] = stats
     c.cov["ledger"] = counts
